@@ -116,6 +116,10 @@ fn main() {
                 let (c, e) = slices::docs::c06_cases(&mut rng, &tier);
                 (c, e, "straight-line single lines (well- and ill-typed/ill-formed, 1-3 statements) analysed and executed from a fresh state; generated small programs analysed and executed under three seeds / input scripts".into())
             }
+            "c15" => {
+                let (c, e) = slices::cli::cases(&mut rng, &tier);
+                (c, e, "generated programs (all lines numbered, non-empty, tokenizable; a quarter with 40-deep nesting and statically wrong unreachable lines; a fifth ending without a newline): SourceFileAnalyzer::analyze(..).into_interpreter() vs line-by-line entry in-process (snapshot, LIST, RUN), and the real `abasic` binary in file mode vs the same lines + RUN piped into an interactive session for --warnings/--tracing/--skip-check combinations".into())
+            }
             "c14" => {
                 let (c, e) = slices::list::cases(&mut rng, &tier);
                 (c, e, "1-8 storable lines (numerals in every spelling incl. hundreds of digits, DATA items quoted/unquoted/numeric/empty/with quotes/multibyte, REM text, strings, crunched keyword/identifier adjacencies, operators with inner blanks, statement-shaped lines, token soup) + a READ/PRINT tail; LIST, reload the listing into a fresh interpreter, LIST again, RUN both; non-trivial = more than one line reloaded".into())
